@@ -1254,6 +1254,21 @@ theorem full_ln_hist {α} (sortF sortF' : List FullLN.Row → List FullLN.Row) (
     ⟨extras, hh.run (·.offset), hl.run (·.offset), others⟩ (hist_perm _ hh).symm (hist_perm _ hl).symm ht
   exact ⟨h.1, h.2.1⟩
 
+/-- `TimedList.time_diff` over histories: no hypothesis at all -/
+theorem time_diff_hist (h : Hist Tp) (last : Rat) :
+    BpmListOps.timeDiff (h.run (fun p => p.time)) last = BpmListOps.timeDiff h.items last :=
+  time_diff_perm last (hist_perm _ h)
+
+/-- `BpmList.current_bpm` (sort=True) over histories -/
+theorem current_bpm_hist (h : Hist Tp) (t δ : Rat) (ht : TiesEqual (fun p : Tp => p.time) h.items) :
+    BpmListOps.currentBpm (h.run (fun p => p.time)) true t δ = BpmListOps.currentBpm h.items true t δ :=
+  (current_bpm_perm t δ ht (hist_perm _ h).symm).symm
+
+/-- `describe()` of a column over histories of the list -/
+theorem describe_hist {α} (key col : α → Rat) (h : Hist α) :
+    BpmListOps.describeCol ((h.run key).map col) = BpmListOps.describeCol (h.items.map col) :=
+  describe_perm ((hist_perm key h).map col)
+
 /-- the history of the seeded change C15-F: two sections, each sorted, then concatenated - interleaved rows -/
 example : (Hist.concat (.sorted (.construct [(⟨0, 120⟩ : Tp), ⟨20000, 150⟩]) false)
                        (.sorted (.construct [⟨12000, 90⟩, ⟨5000, 200⟩]) false)).run (fun p => p.time)
